@@ -208,6 +208,9 @@ pub struct RunCfg {
     pub signal_depth: u32,
     /// memory orderings passed to the cell operations (see interp::ORD_MODE)
     pub ord_mode: u32,
+    /// raise signal 9 when pop_edges of an object of this rank class starts (0 = off): lets a
+    /// template act while the library is in the middle of destructing that object
+    pub signal_pop_class: u32,
 }
 
 impl Default for RunCfg {
@@ -233,6 +236,7 @@ impl Default for RunCfg {
             quarantine: true,
             signal_depth: 0,
             ord_mode: 0,
+            signal_pop_class: 0,
         }
     }
 }
@@ -263,6 +267,9 @@ impl RunCfg {
         if self.ord_mode != 0 {
             j.put("ord_mode", self.ord_mode);
         }
+        if self.signal_pop_class != 0 {
+            j.put("signal_pop_class", self.signal_pop_class);
+        }
         if let Some(s) = &self.stall {
             j.put("stall", J::obj().set("victim", s.victim).set("site", s.site).set("nth", s.nth).set("k", s.k).set("release_signal", s.release_signal));
         }
@@ -290,6 +297,7 @@ impl RunCfg {
             quarantine: j.get("quarantine").and_then(|x| x.as_bool()).unwrap_or(true),
             signal_depth: j.getu("signal_depth") as u32,
             ord_mode: j.getu("ord_mode") as u32,
+            signal_pop_class: j.getu("signal_pop_class") as u32,
         }
     }
 }
